@@ -525,7 +525,21 @@ func rasterDigest(cs []RCall) string {
 	if cs == nil {
 		cs = []RCall{}
 	}
-	b, _ := json.Marshal(cs)
+	// the exact float64 projection of a gradient matrix (m64) is not part of the digest: two pipelines that agree up to
+	// the format's quantisation may differ in the sign of a zero there (the rounded projection m compares the values)
+	cp := make([]RCall, len(cs))
+	copy(cp, cs)
+	for i := range cp {
+		if p, ok := cp[i].Src.(Paint); ok {
+			p.M64 = nil
+			cp[i].Src = p
+		} else if p, ok := cp[i].Src.(*Paint); ok && p != nil {
+			q := *p
+			q.M64 = nil
+			cp[i].Src = &q
+		}
+	}
+	b, _ := json.Marshal(cp)
 	h := sha256.Sum256(b)
 	return hex.EncodeToString(h[:10])
 }
